@@ -1,4 +1,5 @@
 SPECIFICATION Spec
 INVARIANT ArgUnchanged
 INVARIANT NoRaise
+INVARIANT ResultIndependent
 CHECK_DEADLOCK FALSE
